@@ -483,3 +483,47 @@ where
     };
     newton_raphson_onesided(x0, f0, f1)
 }
+
+// ---------------------------------------------------------------------------
+// verification hooks (feature `verif-hooks`): add-only call-through wrappers
+// for the crate-private nonsymmetric-cone methods and read access to the
+// stored barrier derivatives.  No behaviour is added.
+// ---------------------------------------------------------------------------
+#[cfg(feature = "verif-hooks")]
+pub mod verif_hooks_genpowcone {
+    use super::*;
+
+    pub fn is_primal_feasible<T: FloatT>(k: &GenPowerCone<T>, s: &[T]) -> bool {
+        NonsymmetricCone::is_primal_feasible(k, s)
+    }
+    pub fn is_dual_feasible<T: FloatT>(k: &GenPowerCone<T>, z: &[T]) -> bool {
+        NonsymmetricCone::is_dual_feasible(k, z)
+    }
+    pub fn barrier_primal<T: FloatT>(k: &mut GenPowerCone<T>, s: &[T]) -> T {
+        NonsymmetricCone::barrier_primal(k, s)
+    }
+    pub fn barrier_dual<T: FloatT>(k: &mut GenPowerCone<T>, z: &[T]) -> T {
+        NonsymmetricCone::barrier_dual(k, z)
+    }
+    pub fn update_dual_grad_H<T: FloatT>(k: &mut GenPowerCone<T>, z: &[T]) {
+        NonsymmetricCone::update_dual_grad_H(k, z)
+    }
+    pub fn gradient_primal<T: FloatT>(k: &GenPowerCone<T>, g: &mut [T], s: &[T]) {
+        NonsymmetricNDCone::gradient_primal(k, g, s)
+    }
+    pub fn newton_raphson_genpowcone<T: FloatT>(norm_r: T, p: &[T], phi: T, α: &[T], ψ: T) -> T {
+        _newton_raphson_genpowcone(norm_r, p, phi, α, ψ)
+    }
+    pub fn grad<T: FloatT>(k: &GenPowerCone<T>) -> Vec<T> {
+        k.data.grad.clone()
+    }
+    pub fn z<T: FloatT>(k: &GenPowerCone<T>) -> Vec<T> {
+        k.data.z.clone()
+    }
+    pub fn d2<T: FloatT>(k: &GenPowerCone<T>) -> T {
+        k.data.d2
+    }
+    pub fn psi<T: FloatT>(k: &GenPowerCone<T>) -> T {
+        k.data.ψ
+    }
+}
